@@ -1,7 +1,7 @@
 #!/bin/bash
 # like try_mutant.sh but in the scratch worktree /tmp/wt2/dev (FGGS_REPO), so /repo itself is not touched
 patch=$1; prop=$2; tier=${3:-quick}
-W=/tmp/wt2/dev
+W=/tmp/wt2/dev2
 cd $W && git checkout -q --detach $(git -C /repo rev-parse HEAD) 2>/dev/null; git reset -q --hard HEAD
 git apply --3way "$patch" 2>/tmp/apply_dev.err || git apply "$patch" || { echo "PATCH DOES NOT APPLY"; cat /tmp/apply_dev.err | head -5; git reset -q --hard HEAD; exit 3; }
 git reset -q
